@@ -65,6 +65,19 @@ package fragmentbuffer
 
 //@ define SEQ(b) (uint16(b[4])<<8 | uint16(b[5]))
 
+// A datagram of 12..23 bytes carries exactly one fragment (SHORT: every fragment takes at least its 12-byte header;
+// S0/O0/L0 are its sequence, offset and length fields as received), and DUP says whether the (sequence, offset) of its first fragment was
+// already stored when the call started (DUP). A fragment that is already buffered is ignored: it changes neither the
+// per-message byte counter (which Pop compares with the message length) nor the buffer-wide byte/fragment counters
+// (which Pop/AdvanceTo decrease by what is stored); a new fragment is counted exactly once.
+//@ define FOFF(b) U24(b, 6)
+//@ define FLEN(b) U24(b, 9)
+//@ define SHORT(b) (len(b) >= 12 && len(b) < 24)
+//@ define S0(b) old(SEQ(b))
+//@ define O0(b) old(FOFF(b))
+//@ define L0(b) old(FLEN(b))
+//@ define DUP(f, b) old(hasKey(f.cache, SEQ(b)) && hasKey(f.cache[SEQ(b)].fragmentByOffset, FOFF(b)))
+
 //@ func FragmentBuffer.pushHandshakeFragments
 //@ requires wf: wf(f)
 //@ requires wf-keys: wfkeys(f)
@@ -80,6 +93,14 @@ package fragmentbuffer
 //@ ensures bytes-monotone: f.totalBufferSize >= old(f.totalBufferSize)
 //@ ensures bytes-accounted: f.totalBufferSize <= old(f.totalBufferSize) + len(buf)
 //@ ensures count-accounted: f.totalFragmentCount >= old(f.totalFragmentCount) && f.totalFragmentCount - old(f.totalFragmentCount) <= len(buf) && 12*(f.totalFragmentCount - old(f.totalFragmentCount)) <= len(buf)
+//@ ensures single-duplicate-not-counted: err == nil && SHORT(buf) && DUP(f, buf) ==> f.totalFragmentCount == old(f.totalFragmentCount) && f.totalBufferSize == old(f.totalBufferSize)
+//@ ensures single-duplicate-length-kept: err == nil && SHORT(buf) && DUP(f, buf) ==> f.cache[S0(buf)] == old(f.cache[SEQ(buf)]) && f.cache[S0(buf)].fragmentsLength == old(f.cache[SEQ(buf)].fragmentsLength)
+//@ ensures single-new-fragment-counted: err == nil && SHORT(buf) && S0(buf) >= old(CUR(f)) && !DUP(f, buf) ==> f.totalFragmentCount == old(f.totalFragmentCount) + 1 && f.totalBufferSize == old(f.totalBufferSize) + int(L0(buf))
+//@ ensures single-new-fragment-length: err == nil && SHORT(buf) && S0(buf) >= old(CUR(f)) && !DUP(f, buf) ==> hasKey(f.cache, S0(buf)) && (old(hasKey(f.cache, SEQ(buf))) ==> f.cache[S0(buf)] == old(f.cache[SEQ(buf)]) && f.cache[S0(buf)].fragmentsLength == old(f.cache[SEQ(buf)].fragmentsLength) + L0(buf))
+//@     && (!old(hasKey(f.cache, SEQ(buf))) ==> f.cache[S0(buf)].fragmentsLength == L0(buf) && f.cache[S0(buf)].handshakeLength == old(U24(buf, 1)))
+//@ ensures single-new-fragment-stored: err == nil && SHORT(buf) && S0(buf) >= old(CUR(f)) && !DUP(f, buf) ==> hasKey(f.cache[S0(buf)].fragmentByOffset, O0(buf))
+//@     && len(FRAG(f, S0(buf), O0(buf)).data) == int(L0(buf)) && forall(0, len(FRAG(f, S0(buf), O0(buf)).data), func(i int) bool { return FRAG(f, S0(buf), O0(buf)).data[i] == buf[12+i] })
+//@     && FRAG(f, S0(buf), O0(buf)).recordLayerHeader.Epoch == recordLayerHeader.Epoch
 //@ loop #1: cursor-kept: CUR(f) == old(CUR(f))
 //@ loop #1: consumed: sameArray(buf, old(buf)) && offsetOf(buf) >= offsetOf(old(buf)) && offsetOf(buf) + len(buf) == offsetOf(old(buf)) + len(old(buf))
 //@ loop #1: first-seen: offsetOf(buf) > offsetOf(old(buf)) && len(old(buf)) >= 12 && SEQ(old(buf)) < CUR(f) ==> isRetransmit
@@ -88,6 +109,20 @@ package fragmentbuffer
 //@ loop #1: bytes-accounted: f.totalBufferSize + len(buf) <= old(f.totalBufferSize) + len(old(buf))
 //@ loop #1: count-monotone: f.totalFragmentCount >= old(f.totalFragmentCount)
 //@ loop #1: count-bounded: f.totalFragmentCount - old(f.totalFragmentCount) <= len(old(buf))
+//@ loop #1: short-datagram: offsetOf(buf) != offsetOf(old(buf)) && len(old(buf)) < 24 ==> len(buf) < 12
+//@ loop #1: untouched-before-first: offsetOf(buf) == offsetOf(old(buf)) ==> f.totalFragmentCount == old(f.totalFragmentCount) && f.totalBufferSize == old(f.totalBufferSize)
+//@     && (len(old(buf)) >= 12 ==> SEQ(old(buf)) == S0(buf) && FOFF(old(buf)) == O0(buf) && FLEN(old(buf)) == L0(buf) && U24(old(buf), 1) == old(U24(buf, 1)))
+//@     && hasKey(f.cache, S0(buf)) == old(hasKey(f.cache, SEQ(buf))) && f.cache[S0(buf)] == old(f.cache[SEQ(buf)])
+//@     && (hasKey(f.cache, S0(buf)) ==> f.cache[S0(buf)].fragmentsLength == old(f.cache[SEQ(buf)].fragmentsLength)
+//@         && hasKey(f.cache[S0(buf)].fragmentByOffset, O0(buf)) == old(hasKey(f.cache[SEQ(buf)].fragmentByOffset, FOFF(buf))))
+//@ loop #1: first-duplicate-not-counted: len(old(buf)) < 24 && offsetOf(buf) != offsetOf(old(buf)) && DUP(f, buf) ==> f.totalFragmentCount == old(f.totalFragmentCount) && f.totalBufferSize == old(f.totalBufferSize)
+//@ loop #1: first-duplicate-length-kept: len(old(buf)) < 24 && offsetOf(buf) != offsetOf(old(buf)) && DUP(f, buf) ==> f.cache[S0(buf)] == old(f.cache[SEQ(buf)]) && f.cache[S0(buf)].fragmentsLength == old(f.cache[SEQ(buf)].fragmentsLength)
+//@ loop #1: first-new-counted: len(old(buf)) < 24 && offsetOf(buf) != offsetOf(old(buf)) && S0(buf) >= CUR(f) && !DUP(f, buf) ==> f.totalFragmentCount == old(f.totalFragmentCount) + 1 && f.totalBufferSize == old(f.totalBufferSize) + int(L0(buf))
+//@ loop #1: first-new-length: len(old(buf)) < 24 && offsetOf(buf) != offsetOf(old(buf)) && S0(buf) >= CUR(f) && !DUP(f, buf) ==> hasKey(f.cache, S0(buf)) && (old(hasKey(f.cache, SEQ(buf))) ==> f.cache[S0(buf)] == old(f.cache[SEQ(buf)]) && f.cache[S0(buf)].fragmentsLength == old(f.cache[SEQ(buf)].fragmentsLength) + L0(buf))
+//@     && (!old(hasKey(f.cache, SEQ(buf))) ==> f.cache[S0(buf)].fragmentsLength == L0(buf) && f.cache[S0(buf)].handshakeLength == old(U24(buf, 1)))
+//@ loop #1: first-new-stored: len(old(buf)) < 24 && offsetOf(buf) != offsetOf(old(buf)) && S0(buf) >= CUR(f) && !DUP(f, buf) ==> hasKey(f.cache[S0(buf)].fragmentByOffset, O0(buf))
+//@     && len(FRAG(f, S0(buf), O0(buf)).data) == int(L0(buf)) && forall(0, len(FRAG(f, S0(buf), O0(buf)).data), func(i int) bool { return FRAG(f, S0(buf), O0(buf)).data[i] == old(buf)[12+i] })
+//@     && FRAG(f, S0(buf), O0(buf)).recordLayerHeader.Epoch == recordLayerHeader.Epoch
 //@ loop #1: count-accounted: 12*f.totalFragmentCount + len(buf) <= 12*old(f.totalFragmentCount) + len(old(buf))
 //@ loop #1: wf: wf(f)
 //@ loop #1: wf-keys: wfkeys(f)
